@@ -60,6 +60,14 @@ STRENGTH = {
  "C18-w7-1": ("C18", "v2 cases close-mid-poll: the log provider takes 700 ms per call, Close arrives while a poll is inside it"),
  "C18-w7-2": ("C18", "panic/<site>/3x6: the provider of one flow panics on six consecutive calls; the flow must resume and keep ticking"),
  "C19-w7-1": ("C19", "every broadcast block carries a transaction naming the block (a loader); each listener's copy is judged on it"),
+ "C15-w8-1": ("C15", "generated log triggers carry, once in twelve, log data that is present but all zero: valid on a log upkeep, a trigger-type mismatch on a conditional one"),
+ "C15-w8-2": ("C15", "after every accepted decode a second result is written to by its caller, the same bytes are decoded under another work-id generator (must be refused) and once more (must still equal what was encoded)"),
+ "C18-w8-1": ("C18", "the real result store is a fourth service kind under the real recoverer (model kind KSticky): close-before-service-start, close-races-start, slow close and random start / close schedules"),
+ "C03-w8-1": ("C03", "family observation-of-exactly-the-maximum-length: staged count, history length and perform-data sizes are tuned until node a's observation is exactly 1,000,000 bytes; a peer validates it"),
+ "C02-w8-2": ("C02", "(first run: broken obligation only, no input) the first abandoned attempt on instance 1 now comes with ANOTHER valid previous outcome of the same length (empty, padded with blanks); all instances must still agree"),
+ "C08-w8-1": ("C08", "(added after reading the seeding agent's report and before the first run, which therefore already caught it) families hundred-mid-size-results-just-over-the-byte-limit (6.5-7.9 KB perform data)"),
+ "C08-w8-2": ("C08", "(added after reading the seeding agent's report and before the first run) family empty-history-after-a-non-empty-one"),
+ "C03-w8-2": ("C03", "(added after reading the seeding agent's report and before the first run) family two-log-and-nine-conditional-proposals (2 + 9 and 0 + 11 proposals offered)"),
  "C14-w4-1": ("C14", "family long-job-idle-then-burst (per-caller start delays): a long job, seconds of idleness, then a burst"),
 }
 res = {}
